@@ -1,3 +1,4 @@
+import Sparrow.Proofs.PipelineEnergy
 import Sparrow.Proofs.Energy
 import Sparrow.Proofs.Mono
 import Sparrow.Proofs.BakeLemmas
@@ -119,5 +120,17 @@ theorem truncation_only_removes (sc : ExScene ℝ) (hwf : sc.WF) (S' : Nat) (hS 
   apply Finset.sum_le_sum_of_subset_of_nonneg
   · intro x hx; simp at hx ⊢; omega
   · intro t _ _; exact etc_nonneg sc he hf K j d t
+
+/-- C01: if the BRDF table of wall `w` is identically zero (fully absorbing), no patch of wall
+    `w` carries energy in any direction or bin, whatever the order, the room, the source. -/
+theorem runPipeline_absorbing_wall_dark
+    (eta thr : ℝ) (room : Room ℝ) (mat : Materials ℝ) (par : RunPar ℝ) (src recv : Vec3 ℝ)
+    (bk : Baked ℝ) (r : RunResult ℝ)
+    (hb : bakeRoom eta room mat = some bk)
+    (hr : runPipeline eta thr room mat par src recv = some r)
+    (w : Nat) (hz : ∀ i o, mat.table (mat.tableIdx w) i o = 0)
+    (k : Nat) (hk : (bk.patch k).wall = w) (d t : Nat) :
+    lookup3 r.etc k d t = 0 :=
+  Sparrow.runPipeline_absorbing_wall_dark eta thr room mat par src recv bk r hb hr w hz k hk d t
 
 end Sparrow.Props.C01
